@@ -188,6 +188,7 @@ pub fn main(args: &[String]) -> i32 {
     };
     let long_key = o.num("longkey", 0u32) == 1;
     let saturate = o.num("saturate", 0u32) == 1;
+    let highpct = o.num("highpct", 0u32);
     let bias = o.get("bias").unwrap_or("").to_string();
     let dir = o.get("dir").unwrap_or("/dev/shm").to_string();
     let path = format!("{dir}/seq_{}_{}.feox", std::process::id(), seed);
@@ -229,6 +230,20 @@ pub fn main(args: &[String]) -> i32 {
             11 => Some(cur.as_ref().map(|r| r.timestamp.saturating_add(1)).unwrap_or(cx.now)),
             12 => if saturate { Some(u64::MAX - rng.random_range(1..4)) } else { Some(u64::MAX) },
             _ => Some(0), // Some(0) means automatic
+        };
+        // explicit timestamps from the WHOLE 64-bit range (upper half, around 2^63, far from the wall clock and far
+        // from the u64::MAX pin): accepted timestamps are versions whatever their magnitude
+        let ts_choice = if highpct > 0 && rng.random_range(0..100) < highpct {
+            let r = rng.random_range(0..1000u64);
+            Some(match rng.random_range(0..5) {
+                0 => (1u64 << 63) + r,
+                1 => (1u64 << 63) - 1 - r,
+                2 => 3 * (1u64 << 62) + r,
+                3 => u64::MAX - (1u64 << 40) - r,
+                _ => (1u64 << 63) + (1u64 << 32) * (r + 1),
+            })
+        } else {
+            ts_choice
         };
         let auto = ts_choice.map_or(true, |t| t == 0);
         let ts_val = ts_choice.unwrap_or(0);
